@@ -56,10 +56,11 @@ Proof.
     { symmetry. apply (N.mod_unique _ _ q1); [lia|reflexivity]. }
     assert (Hdiv : ((36 - t) * q1 + (digit - t)) / (36 - t) = q1).
     { symmetry. apply (N.div_unique _ _ _ (digit - t)); [lia|reflexivity]. }
-    rewrite Hmod, Hdiv. replace (t + (digit - t)) with digit by lia.
+    rewrite Hmod, Hdiv. clear Hmod Hdiv Hq Hi H H1 IH.
+    replace (t + (digit - t)) with digit by lia.
     cbn [map]. rewrite Hlow. f_equal.
     destruct f as [|f'].
-    + change (2 ^ N.of_nat 0) with 1 in Hf. lia.
+    + change (2 ^ N.of_nat 0) with 1 in Hf. remember ((36 - t) * q1) as X. lia.
     + apply F1. rewrite Nat2N.inj_succ, N.pow_succ_r' in Hf.
       assert (H10 : 10 * q1 <= (36 - t) * q1) by (apply N.mul_le_mono_r; lia).
       remember (2 ^ N.of_nat f') as P. remember ((36 - t) * q1) as X. lia.
